@@ -126,6 +126,17 @@ class SymBuilder:
     def setattr(self, o, name, v):
         self.ctx.setattr(o, name, v)
 
+    def call_catching(self, fn, *args, **kwargs):
+        """call that may raise: returns (result, None) or (None, exception type name)"""
+        from .interp import PyRaise
+        try:
+            return self.ctx.call(fn, list(args), kwargs), None
+        except PyRaise as e:
+            return None, e.exc.tname
+
+    def add(self, x, y):
+        return self.ctx.binop(__import__("ast").Add(), x, y)
+
 
 def native_lookup(qual):
     rel, name = qual.split("::")
@@ -228,6 +239,15 @@ class NativeBuilder:
 
     def setattr(self, o, name, v):
         setattr(o, name, v)
+
+    def call_catching(self, fn, *args, **kwargs):
+        try:
+            return fn(*args, **kwargs), None
+        except Exception as e:
+            return None, type(e).__name__
+
+    def add(self, x, y):
+        return x + y
 
 
 class AssumptionFailed(Exception):
